@@ -1060,6 +1060,18 @@ void flatcc_json_printer_table_vector_field(flatcc_json_printer_t *ctx,
     }
 }
 
+/* A member of a type the schema does not know prints nothing: write `null` so the text remains JSON. */
+static void print_union_member(flatcc_json_printer_t *ctx,
+        flatcc_json_printer_union_descriptor_t *ud, flatcc_json_printer_union_f pf)
+{
+    size_t pos = ctx->total + (size_t)(ctx->p - ctx->buf);
+
+    pf(ctx, ud);
+    if (pos == ctx->total + (size_t)(ctx->p - ctx->buf)) {
+        print_null();
+    }
+}
+
 void flatcc_json_printer_union_vector_field(flatcc_json_printer_t *ctx,
         flatcc_json_printer_table_descriptor_t *td,
         int id, const char *name, size_t len,
@@ -1101,7 +1113,7 @@ void flatcc_json_printer_union_vector_field(flatcc_json_printer_t *ctx,
             if (type != 0) {
                 ud.type = type;
                 ud.member = p;
-                pf(ctx, &ud);
+                print_union_member(ctx, &ud, pf);
             } else {
                 print_null();
             }
@@ -1117,7 +1129,7 @@ void flatcc_json_printer_union_vector_field(flatcc_json_printer_t *ctx,
             if (type != 0) {
                 ud.type = type;
                 ud.member = p;
-                pf(ctx, &ud);
+                print_union_member(ctx, &ud, pf);
             } else {
                 print_null();
             }
@@ -1185,7 +1197,7 @@ void flatcc_json_printer_union_field(flatcc_json_printer_t *ctx,
         ud.ttl = td->ttl;
         ud.type = type;
         ud.member = p;
-        pf(ctx, &ud);
+        print_union_member(ctx, &ud, pf);
     }
 }
 
